@@ -17,8 +17,8 @@ TIMEOUT_MS = {"quick": 60000, "thorough": 300000}
 def tasks(tier):
     t = [("t_kernel", {"phase": ph, "fabric": fb}) for ph, fb in kernel.FABRICS]
     t += [("t_spin_contract", {})]
-    n = 3 if tier == "quick" else 4
-    t += [("t_aggregate", {"regime": "matrix_dislocation", "n_grains": n}), ("t_aggregate", {"regime": "frictional_yielding", "n_grains": n})]
+    for n in ((3,) if tier == "quick" else (1, 2, 4, 6)):
+        t += [("t_aggregate", {"regime": "matrix_dislocation", "n_grains": n}), ("t_aggregate", {"regime": "frictional_yielding", "n_grains": n})]
     return t
 
 
